@@ -38,7 +38,7 @@ func (c08) Runs(tier string) int {
 }
 func (c08) New() interface{} { return &c08Case{} }
 func (c08) Rule() string {
-	return "seeded writer scripts with drawn gzip header settings (Name, Comment, well-formed Extra subfields, ModTime, OS), levels, each executed under three (wc, schedule) pairs; output parsed by an independent RFC1952/BGZF framing validator and by compress/gzip; 1 in 6 runs injects one failing underlying write. non-trivial: >=2 members besides the marker AND the three executions had pairwise different schedule signatures; distinct = (case, schedule signatures)"
+	return "seeded writer scripts with drawn gzip header settings (Name, Comment, well-formed Extra subfields, ModTime, OS), levels, each executed under three (wc, schedule) pairs; output parsed by an independent RFC1952/BGZF framing validator and by compress/gzip; 1 in 6 runs injects one failing underlying write; bgzf.HasEOF is asked through a simulated io.ReaderAt that in 1 of 3 runs returns the final bytes together with io.EOF. non-trivial: >=2 members besides the marker AND the three executions had pairwise different schedule signatures; distinct = (case, schedule signatures)"
 }
 
 func (c08) Gen(t *Tape, tier string, run int) interface{} {
